@@ -24,8 +24,8 @@ RULE = ("scenario = <=2 root runs (event trigger or service call, launched at gr
         "it and one run in which a controller task calls task.cancel(target) while the target is suspended there (time "
         "taken from a dry run).  Every (scenario, fault) runs under legacy_decorators True and False.  Directed "
         "scenarios cover the DESIGN section-6 shapes (#19 first callback raises, #24 callback on a service task, cancel "
-        "inside a callback, callback that resizes the dict - all four fixed in /repo and now expected to behave, cancel "
-        "before the first segment).  A second family runs OVERLAPPING runs of one function - calls of one @service "
+        "inside a callback, callback that resizes the dict, cancel before the first segment, cancellation queued behind "
+        "another task's sleeping done-callback - all fixed in /repo and now expected to behave).  A second family runs OVERLAPPING runs of one function - calls of one @service "
         "(blocking, return_response), occurrences of one trigger, task.create of one function - each run carrying its "
         "own arguments in local variables across a sleep and reporting / returning them afterwards; nested, non-nested "
         "(the first sleeper wakes while the second still sleeps) and sequential timings.  Distinct by payload.")
@@ -456,7 +456,9 @@ async def _body(env, p, fault, when):
                     "cb": {t: [(cbid(c), (info[1][0] if info[1] else 0)) for c, info in v["cb"].items()]
                            for t, v in Function.task2cb.items()},
                     "ctx": set(Function.task2context),
-                    "t2n": {t: sorted(ns) for t, ns in Function.unique_task2name.items()},
+                    # keys are (ctx_name, name) tuples since /repo ef1f444; the trace / the model use "ctx.name"
+                    "t2n": {t: sorted((f"{k[0]}.{k[1]}" if isinstance(k, tuple) else str(k)) for k in ns)
+                            for t, ns in Function.unique_task2name.items()},
                     "queue": [c[1] for c in list(q._queue) if c and c[0] == "cancel"]}
             trace.append(("snap", snap))
 
@@ -860,6 +862,13 @@ def directed():
     # task.unique displaces a run that has callbacks
     S.append({"plans": [[["uniq", "n"], ["addcb", 0, 2, 1], ["addcb", 0, 3, 2], ["sleep", 4]], [["uniq", "n"], ["sleep", 2]]],
               "cbs": cbs, "launch": [[0, "trig", 0], [1, "trig", 1]]})
+    # an unrelated task's cancellation must not wait for another task's sleeping done-callback (reaper, ex C14-F6):
+    # the fault plan cancels task 2 at its first sleep; task 3 cancels itself, task 0 waits for task 3
+    S.append({"plans": [[["create", 3], ["wait", 3]],
+                        [["create", 2], ["addcb", 2, 2, 8], ["rmcb", 2, 4], ["cancel", 1], ["sleep", 2]],
+                        [["sleep", 2], ["sleep", 1]], [["rmcb", 3, 2], ["cancel", 3], ["cancel", 3]]],
+              "cbs": {"1": ["slow", 2], "2": ["slow", 2], "3": ["slow", 2], "4": ["ok"]},
+              "launch": [[1, "trig", 0], [0, "trig", 1]]})
     # task.sleep(0): the creator hands over to the task it has just created; two loopers take turns
     S.append({"plans": [[["create", 1], ["yield"], ["yield"], ["addcb", 1, 2, 1], ["sleep", 1]], [["yield"], ["sleep", 1]]],
               "cbs": cbs, "launch": [[0, "trig", 0]]})
